@@ -291,3 +291,80 @@ Theorem c04_chunk_read_eof_eq :
     Forall (fun c => cend c <= eof) cs -> chunk_read_eof A oa eof cs l = chunk_read_f A oa cs l.
 Proof. exact chunk_read_eof_eq. Qed.
 Print Assumptions c04_chunk_read_eof_eq.
+
+(* ==== byte level (fourth deepening): virtual offsets tied to the bytes of the BGZF file.
+   Models: NV.Index.ByteQuery (csi::io::Query's Seek / Read(chunk end) / Done machine and the BAM
+   record framing of bam/io/reader/record.rs) over C02's reader model NV.Bgzf.ReaderOps of a
+   file given as its frames; proofs in NV.Index.ByteQueryProofs. ==== *)
+From NV Require Import Bgzf.Vpos Bgzf.ReaderOps Bgzf.FlatRef Bgzf.ReaderOpsProofs.
+From NV Require Import Index.ByteQuery Index.ByteQueryProofs.
+
+(* numeric order of virtual positions = order of the bytes they name, on valid positions, with
+   any frames (also empty ones) between: strictly smaller flat offset => strictly smaller
+   position; hence position order never contradicts byte order *)
+Theorem c04_vpos_order_strict : forall f v1 v2 o1 o2, wf f ->
+  denote f v1 = Some o1 -> denote f v2 = Some o2 -> o1 < o2 -> v1 < v2.
+Proof. exact denote_strict. Qed.
+Print Assumptions c04_vpos_order_strict.
+
+Theorem c04_vpos_order_mono : forall f v1 v2 o1 o2, wf f ->
+  denote f v1 = Some o1 -> denote f v2 = Some o2 -> v1 <= v2 -> o1 <= o2.
+Proof. exact denote_mono. Qed.
+Print Assumptions c04_vpos_order_mono.
+
+(* the indexers' scan over the bytes: from a reader (any state of C02's invariant, e.g. after the
+   header) standing at flat offset o where the rest of the data is the records `bodies`, each as
+   4 size bytes + body, for every read_to_end buffer schedule: the loop yields exactly these
+   bodies, with the positions told before / after each one laid out on their flat offsets *)
+Theorem c04_byte_scan : forall f bsz st o bodies, wf f -> total_csize f <= MAX_COMPRESSED_POSITION ->
+  Rel f st o -> skipn (N.to_nat o) (concat (chunks f)) = stream bodies -> Forall rec_ok bodies ->
+  exists st' a L, virtual_position st = Ok a /\ scan_from bsz f st = (st', Ok L) /\
+    map br_body L = bodies /\ laid f o a L /\ Rel f st' (total_dlen f).
+Proof. exact byte_scan_spec. Qed.
+Print Assumptions c04_byte_scan.
+
+(* the scanned [before, after) positions are strictly increasing numbers: the hypothesis
+   `ordered_f` of the format-level theorems holds of every scanned file *)
+Theorem c04_scan_positions_ordered : forall f, wf f -> total_csize f <= MAX_COMPRESSED_POSITION ->
+  forall L o a, laid f o a L -> ordered_b a L.
+Proof. exact laid_ordered. Qed.
+Print Assumptions c04_scan_positions_ordered.
+
+(* seeking to a chunk start and reading until the chunk end, over the bytes: for chunks that
+   start where a scanned record starts and end where that or a later record ends (what an index
+   holds), in ANY order, overlapping or repeated, from ANY reader state: csi::io::Query + the BAM
+   record reader yield, chunk by chunk, exactly the records whose start position lies in
+   [chunk start, chunk end) -- the abstract reading (chunk_read_f) of the theorems above -- and
+   leave the reader in a state of the same invariant *)
+Theorem c04_byte_query_reads_chunks : forall f bsz, wf f -> total_csize f <= MAX_COMPRESSED_POSITION ->
+  forall L o0 a0, laid f o0 a0 L ->
+  skipn (N.to_nat o0) (concat (chunks f)) = stream (map br_body L) ->
+  forall cs st o, Forall (aligned L) cs -> Rel f st o ->
+  exists st' o', Rel f st' o' /\
+    byte_query bsz f st cs = (st', Ok (map br_body (chunk_read_f brec br_a cs L))).
+Proof. exact byte_query_spec. Qed.
+Print Assumptions c04_byte_query_reads_chunks.
+
+(* histories on ONE reader object: any number of queries one after the other each give the
+   answer above; what an earlier query (or scan) left in the reader does not leak *)
+Theorem c04_byte_queries_history : forall f bsz, wf f -> total_csize f <= MAX_COMPRESSED_POSITION ->
+  forall L o0 a0, laid f o0 a0 L ->
+  skipn (N.to_nat o0) (concat (chunks f)) = stream (map br_body L) ->
+  forall qs st o, Forall (Forall (aligned L)) qs -> Rel f st o ->
+  byte_queries bsz f st qs = map (fun cs => Ok (map br_body (chunk_read_f brec br_a cs L))) qs.
+Proof. exact byte_queries_spec. Qed.
+Print Assumptions c04_byte_queries_history.
+
+(* non-vacuity: a 3-byte header and two records; the first record is cut after 10 bytes by a
+   block boundary with an EMPTY block between; scan, then three queries on the same reader *)
+Definition c04_body : list N :=
+  [255;255;255;255; 255;255;255;255; 2; 255; 72;18; 0;0; 4;0; 0;0;0;0; 255;255;255;255;
+   255;255;255;255; 0;0;0;0; 42;0].
+Definition c04_bytes_file : file :=
+  [mkFrame 40 ([1;2;3] ++ [34;0;0;0] ++ firstn 10 c04_body); mkFrame 28 [];
+   mkFrame 50 (skipn 10 c04_body ++ [34;0;0;0] ++ c04_body); mkFrame 28 []].
+Example c04_byte_example :
+  byte_session_x c04_bytes_file 3 [[(pack 0 3, pack 68 24)]; [(pack 68 24, pack 118 0)]; []]
+  = (Ok [mkbrec c04_body 3 4456472; mkbrec c04_body 4456472 7733248],
+     [Ok [c04_body]; Ok [c04_body]; Ok []]).
+Proof. vm_compute. reflexivity. Qed.
